@@ -191,3 +191,23 @@ def run(ctx):
                   "model": RL.coq_show(ctx, "corr", "run_tcase tb", coq_cases[i])}, concrete=False)
     if not built:
         ctx.obligations_failed("compared validate.tree with per-node validation over the visible pre-order on mutated EML trees")
+
+
+def replay(ctx, data):
+    import json
+    r = data.get("replay", {})
+    if r.get("kind") != "impl-vs-statement" or "tree" not in r:
+        print(json.dumps(data, indent=1)[:4000])
+        return run(ctx)
+    got, exp, n_fail = tree_vs_nodes(r["tree"])
+    print(f"validate.tree: ff={got[0]} entries={len(got[1])}; per-node concatenation: ff={exp[0]} entries={len(exp[1])}; failing visible nodes={n_fail}")
+    ctx.case()
+    if got[1] != exp[1]:
+        ctx.fail("C05:collect-concat", "validate.tree's error list is not the concatenation of the per-node lists over the visible pre-order", dict(r, observed=got[1], expected=exp[1]))
+    if got[0] != exp[0]:
+        ctx.fail("C05:failfast-first", "fail-fast validate.tree did not raise what the first failing visible node raises", dict(r, observed=got[0], expected=exp[0]))
+    for k in ("tree_edited_below_metadata",):
+        if k in r:
+            got2, _, _ = tree_vs_nodes(r[k])
+            if got2 != got:
+                ctx.fail("C05:opaque", "editing below a metadata element changed the outcome of validate.tree", dict(r, observed=got, observed_after_edit=got2))
